@@ -266,15 +266,19 @@ def _poll_child(seed, n_cases):
         exp_inner = [f(x, y) for x, y in zip(a, b)]
         exp_other = [f(x, y) for x, y in zip(c, d)]
         exp_outer = [f(x, k) for x in exp_inner]
-        with contextlib.redirect_stdout(io.StringIO()):
-            inner = f(iso.PSequence(a, 1), iso.PSequence(b, 1))
-            inner.poll()
-            other = f(iso.PSequence(c, 1), iso.PSequence(d, 1))         # same class, never polled
-            outer = f(inner, k)                                           # same class, wraps the polled node
-            got_outer = outer.all()
-            got_other = other.all()
-            inner2 = f(iso.PSequence(a, 1), iso.PSequence(b, 1))
-            got_fresh = inner2.all()
+        got_outer = got_other = got_fresh = None
+        try:
+            with contextlib.redirect_stdout(io.StringIO()):
+                inner = f(iso.PSequence(a, 1), iso.PSequence(b, 1))
+                inner.poll()
+                other = f(iso.PSequence(c, 1), iso.PSequence(d, 1))         # same class, never polled
+                outer = f(inner, k)                                           # same class, wraps the polled node
+                got_outer = outer.all()
+                got_other = other.all()
+                inner2 = f(iso.PSequence(a, 1), iso.PSequence(b, 1))
+                got_fresh = inner2.all()
+        except Exception as ex:           # an exception out of a polled expression (RecursionError …) is a wrong output too
+            got_fresh = "raised %s" % type(ex).__name__
         if got_outer != exp_outer or got_other != exp_other or got_fresh != exp_inner:
             out.append({"op": op, "a": a, "b": b, "c": c, "d": d, "k": k, "outer": got_outer, "expected_outer": exp_outer,
                         "other": got_other, "expected_other": exp_other, "fresh": got_fresh, "expected_fresh": exp_inner})
